@@ -284,8 +284,19 @@ def replay_failure(group, h, o, hooks, stubbing, extra_args):
     rdir = os.path.join(REPLAYS, pid)
     os.makedirs(rdir, exist_ok=True)
     if not cands:
-        o.status = "error"
-        o.detail += " | no concrete playback produced (non-reproducible class of failure, e.g. pointer check)"
+        # a harness without symbolic inputs has nothing to play back: the native run of the same function decides
+        vp = os.path.join(rdir, f"{h.name}.vals")
+        with open(vp, "w") as f:
+            f.write(f"# harness={h.name} group={group} (no symbolic inputs)\n# replay: /verif/check {pid} --replay {vp}\n")
+        rr = run_replay_file(group, h.name, vp, hooks)
+        o.sample = {"harness": h.name, "failed_check": "; ".join(o.failed_checks)[:300], "counterexample_values_hex": [], "native_replay": rr}
+        if any(v.startswith("reproduced") for v in rr.values()):
+            o.replay, o.reproduced = vp, True
+            o.detail += f" | native replay (harness without symbolic inputs): {rr}"
+        else:
+            o.status = "error"
+            o.reproduced = False
+            o.detail += " | no concrete playback produced and the native run does not fail (non-reproducible class of failure, e.g. a pointer check)"
         return
     best = None
     for kind, desc, name, vals in cands:
